@@ -11,6 +11,11 @@ Correspondence (real code vs compiled Lean model, same cases):
   chunkenc  http.deferring_chunked_producer over a scripted producer      vs Model/Chunked.lean (encoder)
   chunkdec  http_client.HTTPHandler fed the encoded stream in arbitrary
             fragmentations (recv stub and real socketpair)                vs Model/Chunked.lean (decoder)
+  outbuf    a real deferring_http_channel (refill_buffer + async_chat.initiate_send) between scripted producers and a
+            socket that accepts a scheduled number of bytes per send                 vs Model/OutBuf.lean
+  chanlog   (monitor only) /logtail and /mainlogtail requested as HTTP bytes through that real channel, log bursts around
+            the 4096-byte output buffer and the 64 KiB globbing size, data arriving again on the very next loop iteration,
+            partial sends; the response bytes de-chunked strictly by an independent decoder and by the bundled client
 Monitors: the property statement evaluated on the implementation's answers (Python slices of the
 file content, an independent chunked decoder, the expected /logtail stream), plus the whole real
 chain logtail_handler -> deferring producers -> HTTPHandler.
@@ -28,6 +33,7 @@ TRUSTED = [
     "bytes.decode('utf-8','replace') is a parameter of the theorems (any total function); the driver's utf8Replace reproduces CPython's policy and is compared with it on every run",
     "'%x' % n, bytes.find, bytes.split()[0] and int(tok,16) on lower-case hex digit strings are modelled (hexDigits, splitCRLF, firstToken, parseHex) and exercised, not verified",
     "asyncore/asynchat socket plumbing around handle_read (recv sizes, handle_error/close), HTTP status line and header parsing of HTTPHandler: exercised by the socketpair runs, not modelled",
+    "the channel's output side is modelled from refill_buffer/initiate_send on (Model/OutBuf.lean: the producers are an arbitrary answer list, send() accepts an arbitrary prefix); select()/writable() timing (the `delay` of deferred producers) only decides WHEN initiate_send runs and is exercised by the chanlog runs with a virtual clock, not modelled",
     "the deferring composite/globbing/hooked producers and deferring_http_request.done(): exercised by the chain monitor, not modelled",
 ]
 ASSUMPTIONS = [
@@ -39,7 +45,12 @@ RULE = ("logread/rpclog: (content, offset, length) triples -- exhaustive small g
         "and edge values, content classes ascii / multi-byte UTF-8 / binary, all four moods, missing/unset log; "
         "tailf: random scripts of append/rotate/clear/truncate/unlink/idle with a poll after each; "
         "chunked: chunk lists with sizes around hex-digit boundaries and CR/LF-laden data, every fragmentation of short "
-        "streams exhaustively plus random cuts, byte-at-a-time and whole; non-trivial = non-empty file/stream; "
+        "streams exhaustively plus random cuts, byte-at-a-time and whole; outbuf: buffer size 4 with every list of 2-3 producer answers over "
+        "{NOT_DONE_YET, exhausted, 1, 3, 4, 5, 9 bytes} under constant send quotas {1, 3, 4, all}, random answer lists and quotas {0, 1, 2, size-1, size, "
+        "size+1, all} for sizes 4/8/64, and the real size 4096 with pieces {1 .. 4095, 4096, 4097 .. 12000, 65535, 65536, 65537, 70000} and quotas "
+        "{1, 100, 4095, 4096, all}; chanlog: scripts of appends (sizes around 4096 minus the chunk framing, 6000 .. 20000, 65536, 70000) each followed "
+        "by 1-3 loop iterations with quota {1, 100, 4095, 4096, all} and clock steps {0.01, 0.2} s, both handlers; log answers of 5000 .. 200000 bytes "
+        "over the wire; non-trivial = non-empty file/stream; "
         "distinct = distinct (kind, content-hash, arguments or cut positions)")
 
 MARKER = b'==> File truncated <==\n'
@@ -784,6 +795,341 @@ def run_chain(ctx):
 
 
 # =================================================================================================
+# the channel's output buffer: producers -> deferring_http_channel.refill_buffer / async_chat.initiate_send -> socket
+# =================================================================================================
+class LimitedSock(object):
+    """The channel's socket with a send() that accepts at most `quota` bytes of what it is offered (None = all of it):
+    what a full kernel buffer or a slow reader does to a non-blocking socket.  The accepted bytes really travel through
+    the socketpair to the client side."""
+    def __init__(self, sock):
+        self._s, self.quota, self.offers = sock, None, []
+    def send(self, data):
+        import errno
+        n = len(data) if self.quota is None else min(self.quota, len(data))
+        self.offers.append((len(data), n))
+        if n == 0 and len(data):
+            raise socket.error(errno.EWOULDBLOCK, 'Resource temporarily unavailable')
+        return self._s.send(data[:n])
+    def __getattr__(self, k):
+        return getattr(self._s, k)
+
+
+class ChannelRig(object):
+    """a REAL deferring_http_channel on a socketpair, its socket wrapped in LimitedSock; `handlers` are installed on a
+    minimal server object (props.c12._FakeServer)"""
+    def __init__(self, handlers=(), obs=None):
+        import props.c12 as c12
+        from supervisor.http import deferring_http_channel
+        self.a, self.b = socket.socketpair()
+        self.ch = deferring_http_channel(c12._FakeServer(list(handlers)), self.a, ('127.0.0.1', 0))
+        if obs is not None:
+            self.ch.ac_out_buffer_size = obs
+        self.sock = self.ch.socket = LimitedSock(self.a)
+        self.said = []
+        self.ch.log_info = lambda msg, level='info': self.said.append(msg)
+        self.b.setblocking(False)
+        self.received = b''
+
+    def drain(self):
+        got = b''
+        try:
+            while True:
+                d = self.b.recv(1 << 17)
+                if not d:
+                    break
+                got += d
+        except (BlockingIOError, OSError):
+            pass
+        self.received += got
+        return got
+
+    def close(self):
+        try:
+            self.ch.close()
+        except Exception:
+            pass
+        for s_ in (self.a, self.b):
+            try:
+                s_.close()
+            except OSError:
+                pass
+
+
+class ScriptedFifoProducer(object):
+    """more() answers the next scripted item (None = NOT_DONE_YET); `log` records every answer given, in order"""
+    delay = 0.0
+    def __init__(self, answers, log, last):
+        self.answers, self.log, self.last = list(answers), log, last
+    def more(self):
+        from supervisor.http import NOT_DONE_YET
+        if self.answers:
+            a = self.answers.pop(0)
+        else:
+            a = None if self.last else b''
+        self.log.append(a)
+        return NOT_DONE_YET if a is None else a
+
+
+def outbuf_case(ctx, obs, answers, accepts):
+    """answers: list of bytes | None (NOT_DONE_YET) | b'' (that producer is exhausted; the next answers come from the next
+    producer of the fifo); accepts: bytes the socket takes on each handle_write (None = everything offered).
+    -> (case line, op lines, impl lines)"""
+    rig = ChannelRig(obs=obs)
+    log = []
+    groups, cur = [], []
+    for a in answers:
+        if a == b'':
+            groups.append(cur); cur = []
+        else:
+            cur.append(a)
+    groups.append(cur)
+    inp = {'part': 'outbuf', 'obs': obs, 'answers': ['nd' if a is None else len(a) for a in answers], 'accepts': accepts}
+    ops, il = [], []
+    try:
+        for i, g in enumerate(groups):
+            rig.ch.producer_fifo.push(ScriptedFifoProducer(g, log, last=(i == len(groups) - 1)))
+        def yielded():
+            return b''.join(a for a in log if a)
+        for k in accepts:
+            rig.sock.quota = k
+            try:
+                rig.ch.handle_write()
+            except Exception as e:
+                ctx.violation('channel-send-raised:' + type(e).__name__, 'handle_write raised %r' % (e,), inp)
+                break
+            got = rig.drain()
+            ops.append('send k=%d' % ((1 << 30) if k is None else k))
+            il.append('asked=%d sent=%s' % (len(log), hexs(got)))
+            y = yielded()
+            if rig.received != y[:len(rig.received)]:
+                d = next((i for i in range(min(len(rig.received), len(y))) if rig.received[i] != y[i]), min(len(rig.received), len(y)))
+                ctx.violation('channel-bytes-wrong', 'after %d sends the socket has carried %d bytes that are not a prefix of the %d bytes the producers '
+                              'handed over (first difference at byte %d)' % (len(ops), len(rig.received), len(y), d), inp)
+                break
+        else:
+            # the socket takes everything from now on: whatever is buffered must arrive
+            rig.sock.quota = None
+            for _ in range(4 + sum(len(a) for a in answers if a) // max(1, obs)):
+                rig.ch.handle_write(); rig.drain()
+            y = yielded()
+            if rig.received != y:
+                kind = 'channel-bytes-lost' if len(rig.received) < len(y) else 'channel-bytes-duplicated' if len(rig.received) > len(y) else 'channel-bytes-wrong'
+                d = next((i for i in range(min(len(rig.received), len(y))) if rig.received[i] != y[i]), min(len(rig.received), len(y)))
+                ctx.violation(kind, 'the producers handed %d bytes to the channel, the socket carried %d (first difference at byte %d); buffer size %d, pieces %s, accepted per send %s'
+                              % (len(y), len(rig.received), d, obs, inp['answers'], accepts), inp)
+    finally:
+        rig.close()
+    ctx.count('outbuf:cases'); ctx.count('outbuf:obs:%d' % obs)
+    for a in answers:
+        ctx.count('outbuf:piece:' + ('nd' if a is None else 'exhausted' if a == b'' else '<obs' if len(a) < obs else '=obs' if len(a) == obs else '>obs' if len(a) <= 16 * obs else '>>obs'))
+    for k in accepts:
+        ctx.count('outbuf:accept:' + ('all' if k is None else '0' if k == 0 else '<obs' if k < obs else '>=obs'))
+    ctx.case_done(('outbuf', obs, tuple(answers), tuple(accepts)), nontrivial=any(answers))
+    # the model is given enough NOT_DONE_YET answers after the script (the last producer never ends)
+    enc = ','.join(['nd' if a is None else 'e' if a == b'' else a.hex() for a in answers] + ['nd'] * (len(accepts) + 1))
+    return 'case outbuf obs=%d answers=%s' % (obs, enc), ops, il
+
+
+def pattern(start, n):
+    """n bytes of the endless text '0000000\n0000001\n...' from byte offset `start` (so that lost, repeated or moved bytes show)"""
+    first = start // 8
+    t = b''.join(b'%07d\n' % (i % 10000000) for i in range(first, first + n // 8 + 2))
+    return t[start - first * 8:start - first * 8 + n]
+
+
+def run_outbuf(ctx):
+    rng = ctx.rng
+    cases, impls = [], []
+    def one(obs, answers, accepts):
+        c, ops, il = outbuf_case(ctx, obs, answers, accepts)
+        cases.append((c, ops)); impls.append(il)
+    def piece(n, off=[0]):
+        off[0] += n
+        return pattern(off[0] - n, n)
+    # regression corpus: seeded change C16-6 (refill overwrites the unsent rest): a piece larger than the buffer, the next one right behind
+    one(4096, [piece(22), None, piece(6008), piece(50), None], [None, None, None, None, None])
+    one(4, [piece(6), piece(2)], [4, 4, 4])
+    # small scope, exhaustive: buffer size 4, every list of 2..3 answers over {NOT_DONE_YET, exhausted, 1, 3, 4, 5, 9 bytes}, constant schedules
+    sizes = [None, b'', 1, 3, 4, 5, 9]
+    import itertools
+    combos = [c for n in (2, 3) for c in itertools.product(sizes, repeat=n)]
+    if ctx.tier != 'thorough' and ctx.boost <= 1:
+        combos = [c for c in combos if len(c) == 2] + rng.sample([c for c in combos if len(c) == 3], 60)
+    for combo in combos:
+        answers = [a if a is None or a == b'' else piece(a) for a in combo]
+        for k in ([1, 3, 4, None] if ctx.tier == 'thorough' else [rng.choice([1, 3]), rng.choice([4, None])]):
+            one(4, answers, [k] * rng.randrange(2, 7))
+    # random schedules, small and real buffer sizes, piece sizes around the buffer size and the 64 KiB globbing size
+    for _ in range(ctx.n(120, 1500)):
+        obs = rng.choice([4, 8, 64])
+        answers = []
+        for _ in range(rng.randrange(1, 6)):
+            r = rng.random()
+            answers.append(None if r < 0.2 else b'' if r < 0.27 else piece(rng.choice([1, 2, obs - 1, obs, obs + 1, 2 * obs, 2 * obs + 1, 5 * obs + 3])))
+        one(obs, answers, [rng.choice([0, 1, 2, obs - 1, obs, obs + 1, None]) for _ in range(rng.randrange(1, 10))])
+    big = [1, 100, 4000, 4095, 4096, 4097, 6000, 8191, 8192, 8193, 12000]
+    huge = [65535, 65536, 65537, 70000]
+    for i in range(ctx.n(30, 300)):
+        answers = []
+        for _ in range(rng.randrange(2, 6)):
+            r = rng.random()
+            answers.append(None if r < 0.2 else piece(rng.choice(huge)) if r < 0.27 and i % 4 == 0 else piece(rng.choice(big)))
+        one(4096, answers, [rng.choice([1, 100, 4095, 4096, None, None]) for _ in range(rng.randrange(2, 12))])
+    ctx.sample({'case': cases[1][0], 'ops': cases[1][1], 'impl': impls[1]})
+    ctx.correspond('outbuf', cases, impls)
+
+
+# =================================================================================================
+# /logtail and /mainlogtail through the real channel: request bytes in, response bytes out of a socket that accepts
+# what the schedule says, bursts around the buffer sizes, data arriving again on the very next loop iteration
+# =================================================================================================
+def strict_dechunk(raw):
+    """independent, strict decoder of a still-open chunked body -> (payload, error or None)"""
+    body, pos = b'', 0
+    while pos < len(raw):
+        eol = raw.find(b'\r\n', pos)
+        if eol == -1:
+            return body, 'incomplete chunk-size line at byte %d: %r' % (pos, raw[pos:pos + 20])
+        size_line = raw[pos:eol]
+        if not size_line or any(c not in b'0123456789abcdefABCDEF' for c in size_line):
+            return body, 'bad chunk-size line at byte %d: %r' % (pos, size_line[:20])
+        size = int(size_line, 16)
+        if size == 0:
+            return body, 'the server terminated the stream at byte %d' % pos
+        start, end = eol + 2, eol + 2 + size
+        if len(raw) < end + 2:
+            return body, 'the chunk at byte %d announces %d bytes but only %d follow' % (pos, size, len(raw) - start)
+        if raw[end:end + 2] != b'\r\n':
+            return body, 'the chunk at byte %d (size %d) is followed by %r instead of CRLF' % (pos, size, raw[end:end + 8])
+        body += raw[start:end]
+        pos = end + 2
+    return body, None
+
+
+def chanlog_case(ctx, idx, main, initial, script):
+    """script: ('append', n) | ('iter', accept or None, dt).  One loop iteration = what asyncore.poll does for the channel:
+    writable() at the virtual time, then the write event."""
+    from supervisor.http import logtail_handler, mainlogtail_handler
+    from supervisor.http_client import HTTPHandler
+    from supervisor.tests.base import DummyOptions, DummyPConfig, PopulatedDummySupervisor
+    import supervisor.medusa.asyncore_25 as asyncore
+    rng = ctx.rng
+    d = os.path.join(ctx.scratch, 'cl%d' % idx); os.makedirs(d)
+    path = os.path.join(d, 'log')
+    total = initial
+    with open(path, 'wb') as f:
+        f.write(pattern(0, initial))
+    opts = DummyOptions()
+    sup = PopulatedDummySupervisor(opts, 'grp', DummyPConfig(opts, 'proc', '/bin/true', stdout_logfile=path))
+    opts.logfile = path
+    rig = ChannelRig([logtail_handler(sup), mainlogtail_handler(sup)])
+    inp = {'part': 'chanlog', 'main': main, 'initial': initial, 'script': [list(o) for o in script]}
+    clock = [1000.0]
+    iters = [0]
+    def iterate(accept, dt):
+        clock[0] += dt
+        rig.sock.quota = accept
+        iters[0] += 1
+        if rig.ch.connected and rig.ch.writable(clock[0]):
+            asyncore.write(rig.ch)
+        return rig.drain()
+    try:
+        rig.sock.quota = None
+        rig.b.setblocking(True)
+        rig.b.sendall(('GET %s HTTP/1.1\r\nHost: x\r\n\r\n' % ('/mainlogtail' if main else '/logtail/grp:proc')).encode())
+        rig.b.setblocking(False)
+        asyncore.read(rig.ch)
+        rig.drain()
+        for op in script:
+            if op[0] == 'append':
+                with open(path, 'ab') as f:
+                    f.write(pattern(total, op[1]))
+                total += op[1]
+                ctx.count('chanlog:append:' + ('<4096' if op[1] < 4000 else '~4096' if op[1] <= 4200 else '<64K' if op[1] < 65000 else '>=64K'))
+            else:
+                got = iterate(op[1], op[2])
+                ctx.count('chanlog:iter:accept=%s:%s' % ('all' if op[1] is None else op[1], 'sent' if got else 'nothing'))
+        quiet = 0
+        for _ in range(60 + total // 2048):            # the reader takes everything from now on, the loop keeps turning
+            quiet = 0 if iterate(None, 0.2) else quiet + 1
+            if quiet >= 4:
+                break
+    except Exception as e:
+        ctx.violation('logtail-channel-raised:' + type(e).__name__, 'the channel raised %r' % (e,), inp)
+        rig.close()
+        return
+    said = list(rig.said)
+    connected = rig.ch.connected
+    rig.close()
+    ctx.count('chanlog:cases'); ctx.count('chanlog:iterations', iters[0])
+    ctx.case_done(('chanlog', main, initial, tuple(tuple(o) for o in script)), nontrivial=True)
+    head, sep, raw = rig.received.partition(b'\r\n\r\n')
+    if not sep or not head.startswith(b'HTTP/1.1 200') or b'transfer-encoding: chunked' not in head.lower():
+        ctx.violation('logtail-not-streaming', 'no chunked 200 response: %r' % rig.received[:120], inp)
+        return
+    expected = pattern(0, total)[max(0, initial - 1024):]
+    body, err = strict_dechunk(raw)
+    def first_diff(a, b):
+        return next((i for i in range(min(len(a), len(b))) if a[i] != b[i]), min(len(a), len(b)))
+    if not connected or said:
+        ctx.violation('logtail-channel-closed', 'the server closed the stream: %r' % (said[-1:] or 'closed',), inp)
+    if err is not None:
+        ctx.violation('logtail-channel-framing-broken', 'the response is not a well-formed chunked body: %s (after %d payload bytes of %d)'
+                      % (err, len(body), len(expected)), inp)
+    if body != expected:
+        kind = 'logtail-channel-bytes-lost' if len(body) < len(expected) else 'logtail-channel-bytes-duplicated' if len(body) > len(expected) else 'logtail-channel-bytes-wrong'
+        ctx.violation(kind, 'an independent client reads %d payload bytes, the log carries %d after the initial tail (first difference at %d)'
+                      % (len(body), len(expected), first_diff(body, expected)), inp)
+    # the bundled client on the same bytes, under a random fragmentation
+    segs = split_random(rng, rig.received, rng.choice([1, 3, 10, 60]))
+    segs = [p_ for q in segs for p_ in [q[i:i + 4096] for i in range(0, len(q), 4096)]]
+    lst = RecListener()
+    h = HTTPHandler(lst, conn=None, map={}); h.url = 'u'
+    cerr = None
+    for sg in segs:
+        h.recv = lambda n, sg=sg: sg
+        try:
+            h.handle_read()
+        except Exception as e:
+            cerr = e; break
+    got = b''.join(lst.fed)
+    if cerr is not None or got != expected or lst.is_done or lst.errors:
+        ctx.violation('logtail-channel-client-mismatch', 'the bundled client reassembled %d bytes, the log carries %d (first difference at %d); error %r %r; done=%s'
+                      % (len(got), len(expected), first_diff(got, expected), cerr, lst.errors[:1], lst.is_done), dict(inp, cuts=[len(x) for x in segs]))
+
+
+CORPUS_CHANLOG = [
+    # seeded change C16-6: a 6000-byte burst, and the child writes again as soon as its first 4096 bytes are out
+    (False, 22, [('append', 12), ('iter', None, 0.2), ('iter', None, 0.2), ('append', 6000), ('iter', None, 0.2), ('append', 44),
+                 ('iter', None, 0.2), ('iter', None, 0.2), ('append', 10), ('iter', None, 0.2)]),
+    (True, 2000, [('append', 4090), ('iter', 4095, 0.2), ('append', 1), ('iter', 4096, 0.2), ('append', 70000), ('iter', None, 0.2), ('append', 5),
+                  ('iter', 100, 0.2), ('append', 5), ('iter', None, 0.2)]),
+]
+
+
+def gen_chanlog(rng):
+    sizes = [1, 50, 1000, 4000, 4084, 4085, 4086, 4087, 4088, 4089, 4090, 4091, 4095, 4096, 4097, 6000, 8192, 12000, 20000]
+    script = []
+    for _ in range(rng.randrange(3, 11)):
+        r = rng.random()
+        n = rng.choice([65530, 65536, 70000]) if r < 0.06 else rng.choice(sizes) if r < 0.7 else rng.randrange(1, 9000)
+        script.append(('append', n))
+        for _ in range(rng.choice([1, 1, 1, 2, 3])):
+            script.append(('iter', rng.choice([1, 100, 4095, 4096, None, None, None]), rng.choice([0.01, 0.2, 0.2])))
+    return rng.choice([0, 5, 900, 1024, 3000]), script
+
+
+def run_chanlog(ctx):
+    rng = ctx.rng
+    items = list(CORPUS_CHANLOG)
+    for i in range(ctx.n(40, 500)):
+        initial, script = gen_chanlog(rng)
+        items.append((i % 3 == 0, initial, script))
+    for i, (main, initial, script) in enumerate(items):
+        chanlog_case(ctx, i, main, initial, script)
+
+
+# =================================================================================================
 # the log methods over the wire: real supervisor_xmlrpc_handler on a real deferring_http_channel (socketpair)
 # =================================================================================================
 def rpc_wire_case(ctx, content, meth, off, ln):
@@ -844,6 +1190,16 @@ def run_rpc_wire(ctx):
                 rpc_wire_case(ctx, content, meth, off, ln)
 
 
+def run_rpc_wire_big(ctx):
+    """answers larger than the channel's 4096-byte output buffer and than the 64 KiB globbing buffer of the response chain:
+    the response reaches the socket in many sends and more than one producer piece"""
+    for n in ([5000, 70000, 140001] if ctx.tier == 'quick' else [4096, 5000, 65536, 70000, 140001, 200000]):
+        content = pattern(0, n)
+        rpc_wire_case(ctx, content, 'readLog', 0, 0)
+        rpc_wire_case(ctx, content, 'readProcessStdoutLog', 1, n - 2)
+        rpc_wire_case(ctx, content, 'tailProcessStdoutLog', 0, n)
+
+
 def norm_cr(v):
     if isinstance(v, str):
         return v.replace('\r\n', '\n').replace('\r', '\n')
@@ -856,9 +1212,12 @@ def run(ctx):
     run_logread(ctx)
     run_rpclog(ctx)
     run_rpc_wire(ctx)
+    run_rpc_wire_big(ctx)
     run_tailf(ctx)
     run_chunked(ctx)
     run_chain(ctx)
+    run_outbuf(ctx)
+    run_chanlog(ctx)
 
 
 def replay(ctx, data):
@@ -882,6 +1241,14 @@ def replay(ctx, data):
         tailf_case(ctx, deser(inp['script']), inp['head'], 0)
     elif part == 'chain':
         chain_case(ctx, deser(inp['script']), 0, inp['main'])
+    elif part == 'outbuf':
+        off = [0]
+        def piece(n):
+            off[0] += n
+            return pattern(off[0] - n, n)
+        outbuf_case(ctx, inp['obs'], [None if a == 'nd' else b'' if a == 0 else piece(a) for a in inp['answers']], inp['accepts'])
+    elif part == 'chanlog':
+        chanlog_case(ctx, 0, inp['main'], inp['initial'], [tuple(o) for o in inp['script']])
     elif part == 'chunkenc':
         enc_case(ctx, [tuple([i[0]] + ([bytes.fromhex(i[1])] if i[0] == 'b' else i[1:])) for i in inp['items']])
     elif part == 'chunkdec':
@@ -905,7 +1272,9 @@ LEVEL_TEXT = ("readFile_spec/tailFile_spec for every content and every integer o
               "BAD_ARGUMENTS/the decoded window and never another exception, for every decoder (log_rpc_never_raises); "
               "tail_f_producer delivers exactly the appended bytes for every observation sequence with fixed inode and "
               "non-decreasing size and restarts at 0 after rotation/truncation (tailf_appends, tailf_restart_*); the client "
-              "reassembles every chunk list under every fragmentation (chunk_roundtrip, decoder_fragmentation_invariant)")
+              "reassembles every chunk list under every fragmentation (chunk_roundtrip, decoder_fragmentation_invariant); the channel's "
+              "output buffer neither loses, repeats nor reorders a byte for every producer answer list, buffer size and send-size schedule, "
+              "and delivers everything once the socket keeps accepting (outbuf_conserves, outbuf_delivers_everything, logtail_stream_through_channel)")
 LEVEL_NOTE = ("trusts Lean's kernel, extract.py, Python file/stat semantics, CPython formatting/int/find/split and the UTF-8 codec, "
               "asyncore socket plumbing; TCP is simulated by fragmentation; two open findings (XML-RPC transport of control characters / CR)")
 DESIGN_REF = "DESIGN.md section 6, C16"
